@@ -47,8 +47,8 @@ def ev(*events):
 def m2():
     """Two partitions, traits, two tenants; allocation variants move the
     pattern p.* to the tenant of the other partition / change its traits."""
-    def allocs(p_to, ta_traits):
-        ta = {'name': 'ta', 'partition': '_default', 'rank': 100,
+    def allocs(p_to, ta_traits, ta_part='_default'):
+        ta = {'name': 'ta', 'partition': ta_part, 'rank': 100,
               'memory': '0M', 'cpu': '0%', 'disk': '0M',
               'traits': ta_traits, 'assignments': []}
         tb = {'name': 'tb', 'partition': 'p2', 'rank': 100,
@@ -80,8 +80,10 @@ def m2():
                 {'cap': ['10M', '10%', '10M'], 'partition': 'p2',
                  'traits': ['t1', 't2']}]},
         },
+        # variant 3: tenant 'ta' itself moves to partition p2 (same
+        # allocation name in another partition)
         'allocations': [allocs('ta', []), allocs('tb', []),
-                        allocs('ta', ['t1'])],
+                        allocs('ta', ['t1']), allocs('ta', ['t1'], 'p2')],
         'templates': {
             'pl': {'memory': '3M', 'cpu': '3%', 'disk': '3M', 'affinity': 'a'},
             't1': {'memory': '6M', 'cpu': '2%', 'disk': '2M', 'affinity': 'b',
